@@ -219,6 +219,11 @@ def check_shape(shape, family, only=None):
                 if family == "expr":
                     for the_id in sorted(ids_before):
                         r1.find_id(the_id)
+                    # list every node's subtree in every order BEFORE the move (a listing must never be remembered)
+                    for x in ns:
+                        for order in ("preorder", "inorder", "postorder"):
+                            x.to_list(order)
+                        x.find_type(type(r1))
                 par_ = nd.parent
                 side = "left" if par_.left is nd else "right"
                 if side == "left":
@@ -240,6 +245,16 @@ def check_shape(shape, family, only=None):
                         if r1.find_id(the_id) is not want:
                             bad("find_id-after-relinking", f"id {the_id}: the node was moved out of the tree")
                             break
+                    for x in [y for y in ns if id(y) not in {id(z) for z in S.preorder(nd)}] + [r2]:
+                        for order in ("preorder", "inorder", "postorder"):
+                            want_l = [a for a, _ in _ref(x, order)]
+                            got_l = x.to_list(order)
+                            if len(got_l) != len(want_l) or any(a is not b for a, b in zip(got_l, want_l)):
+                                bad(f"to_list-after-relinking:{order}", "listing of an ancestor does not follow the current links")
+                        want_t = [a for a, _ in _ref(x, "inorder")]
+                        got_t = x.find_type(type(r1))
+                        if len(got_t) != len(want_t) or any(a is not b for a, b in zip(got_t, want_t)):
+                            bad("find_type-after-relinking", "")
             except Exception as e:  # noqa
                 bad("query-after-relinking-raises", repr(e)[:120])
             # ... and after REPLACING a subtree in place (the replaced node keeps its stale parent pointer, as the
@@ -252,6 +267,9 @@ def check_shape(shape, family, only=None):
                     old_ids = sorted({x.id for x in S.preorder(nd3)})
                     for the_id in old_ids:
                         r3.find_id(the_id)
+                    for x in ns3:
+                        for order in ("preorder", "inorder", "postorder"):
+                            x.to_list(order)
                     fresh_leaf = type(r3)()
                     fresh_leaf.id = "replacement"
                     p3 = nd3.parent
@@ -265,8 +283,12 @@ def check_shape(shape, family, only=None):
                         if r3.find_id(the_id) is not want:
                             bad("find_id-after-replacement", f"id {the_id}: find_id does not follow the current links")
                             break
-                    if [x for x in r3.to_list("inorder")] != ino3:
-                        bad("to_list-after-replacement", "")
+                    for x in [y for y in ns3 if id(y) not in {id(z) for z in S.preorder(nd3)}]:
+                        for order in ("preorder", "inorder", "postorder"):
+                            want_l = [a for a, _ in _ref(x, order)]
+                            got_l = x.to_list(order)
+                            if len(got_l) != len(want_l) or any(a is not b for a, b in zip(got_l, want_l)):
+                                bad(f"to_list-after-replacement:{order}", "listing does not follow the current links")
                 except Exception as e:  # noqa
                     bad("query-after-replacement-raises", repr(e)[:120])
     seen = set()
@@ -313,7 +335,7 @@ def run(tier, seed):
         "distinct_nontrivial": acc.n["nontrivial"],
         "rule": f"all binary tree shapes with 1..{N} nodes (0/left-only/right-only/2 children per node), as BinaryTreeNode "
                 f"and (<= {N - 1} nodes) as mixed-class MathExpression trees with duplicated ids; per shape: 3 orders x "
-                "(1 full visit + every stop position) plus all link queries on every node. evaluations = traversal runs; "
+                "(1 full visit + every stop position) plus all link queries on every node, and (<= 7 nodes) two histories per non-root node - list / look up everything, move or replace that subtree through the public setters, list / look up again from every remaining node and compare with the current links. evaluations = traversal runs; "
                 "distinct_nontrivial = distinct (shape, family) pairs with more than one node",
         "exhaustive": True,
         "bound": {"max_nodes": N},
